@@ -236,6 +236,7 @@ def run(ctx):
     s1 = search_loop(ctx, setup, action='append')
     s2 = search_loop(ctx, lip, action='accumulate')
     check_sibling(ctx, setup, s1, lip, s2)
+    check_groups_reset(ctx, setup, s1)
     check_loss(ctx, loss)
     check_fix(ctx, fix, est)
     check_lipschitz(ctx, lip, s2)
@@ -270,6 +271,23 @@ def search_loop(ctx, fi, action):
            'the search must stop at the first containing clique: without `break` the measurement is counted once per containing clique',
            construct='break after the action in ' + fi.name)
     return dict(outer=outer, inner=inner, proj=proj, cl=cl, body=body, seq=inner.iter)
+
+
+def check_groups_reset(ctx, setup, s1):
+    """the per-clique groups are rebuilt from empty on every setup, before the first measurement is attached"""
+    resets = [s for s in setup.body if isinstance(s, ast.Assign) and any(U(t) == 'self.groups' for t in s.targets)]
+    ok = False
+    where = setup.node
+    if resets:
+        where = resets[-1]
+        v = resets[-1].value
+        empty = (isinstance(v, ast.Call) and U(v.func) in ('defaultdict', 'dict', 'collections.defaultdict')) or \
+            (isinstance(v, ast.Dict) and not v.keys) or (isinstance(v, ast.DictComp) and U(v.value) in ('[]', 'list()'))
+        ok = empty and resets[-1].lineno < s1['outer'].lineno
+    ctx.ob('exactly-once', setup, where, ok,
+           'setup must rebind self.groups to a fresh empty container (unconditionally, before attaching measurements): groups that '
+           'survive from an earlier call make old measurements count again in the loss',
+           construct=U(where)[:80] if resets else 'no reset of self.groups in ' + setup.name)
 
 
 def normalise_seq(fi, expr, setup_fi):
@@ -476,8 +494,8 @@ class Spell:
         self.fi, self.proj, self.Q = fi, proj, Q
         self.pk = {'str': ('str', 'name'), 'list': ('list', 'attrs'), 'tuple': ('tuple', 'attrs')}[kind]
         self.q = 'given' if q_given else 'none'
-        self.eye_after_norm = None
-        self.eye_size = None
+        self.q_given = q_given
+        self.q_replaced = None
 
     def type_test(self, t):
         """decide tests on the type of proj / on Q is None; None = not about them"""
@@ -517,12 +535,25 @@ class Spell:
         for s in stmts:
             if isinstance(s, ast.If):
                 r = self.type_test(s.test)
+                if r is None and isinstance(s.test, ast.BoolOp) and isinstance(s.test.op, ast.Or):
+                    parts = [self.type_test(v) for v in s.test.values]
+                    if any(p is True for p in parts):
+                        r = True
+                    elif all(p is False for p in parts):
+                        r = False
+                if r is None and self.proj not in {n.id for n in ast.walk(s.test) if isinstance(n, ast.Name)}:
+                    # a test on something else (e.g. the query): the branch may or may not run
+                    self.run(s.body)
+                    self.run(s.orelse)
+                    continue
                 if r is None:
                     raise AnalysisError('fix_measurements: undecidable test `%s`' % U(s.test))
                 self.run(s.body if r else s.orelse)
             elif isinstance(s, ast.Assign) and len(s.targets) == 1 and U(s.targets[0]) == self.proj:
                 self.assign_proj(s.value)
             elif isinstance(s, ast.Assign) and len(s.targets) == 1 and U(s.targets[0]) == self.Q:
+                if self.q_given and self.Q not in {n.id for n in ast.walk(s.value) if isinstance(n, ast.Name)}:
+                    self.q_replaced = s      # a supplied query is thrown away
                 self.q = ('eye', U(s.value), self.pk)
             elif isinstance(s, (ast.Assert, ast.Expr, ast.Pass)):
                 continue
@@ -547,6 +578,11 @@ def check_fix(ctx, fi, est):
             ctx.ob('spelling', fi, loop, sp.pk == ('tuple', 'attrs'),
                    '[%s] proj must end as one tuple of attribute names (hashable clique key); ends as %s of %s' % (label, sp.pk[0], sp.pk[1]),
                    construct='proj normalisation [%s]' % label)
+            if q_given:
+                ctx.ob('spelling', fi, sp.q_replaced or loop, sp.q_replaced is None,
+                       '[%s] a supplied query must be used as given (it may be converted, never replaced)%s'
+                       % (label, '' if sp.q_replaced is None else ': `%s` can run for a supplied Q' % U(sp.q_replaced)),
+                       construct='Q kept [%s]' % label)
             if not q_given:
                 ok = isinstance(sp.q, tuple) and sp.q[2] == ('tuple', 'attrs') and \
                     sp.q[1].replace(' ', '') in ('sparse.eye(self.domain.size(%s))' % proj, 'sparse.identity(self.domain.size(%s))' % proj,
